@@ -130,6 +130,8 @@ var sigs = map[string]sig{
 	"redactArrayValuesWithKey":        {},
 	"redactArrayValues":               {},
 	"HashName":                        {},
+	"redactNamespaceFields":           {},
+	"redactOperation":                 {},
 }
 
 // functions that call one another: emitted in one `mutual` block, all with a fuel argument
@@ -138,7 +140,7 @@ var mutualGroups = [][]string{{"redactQueryValues", "redactArrayValuesWithKey"}}
 // emission order (callees first)
 var order = []string{"HashName", "reMatchesAnyKeyInPath", "redactString", "IsEmail", "withinSearchUserDocument", "RemoveElementAfter", "RemoveElementsBeforeIncluding",
 	"traverseMapPath", "getOp", "redactScalarValue", "isFieldNameValue", "isRedactableFieldPatternInArray", "isInSearchStage", "augmentOp",
-	"redactQueryValues", "redactArrayValuesWithKey", "redactArrayValues"}
+	"redactQueryValues", "redactArrayValuesWithKey", "redactArrayValues", "redactNamespaceFields", "redactOperation"}
 
 type gname struct {
 	lean string
@@ -186,6 +188,7 @@ type fnInfo struct {
 	results []*ty
 	fuel    bool // takes a fuel argument
 	rec     bool // calls itself
+	proc    bool // no results in Go: the map passed first is updated in place; the Lean function returns the updated map
 }
 
 type tr struct {
@@ -541,6 +544,8 @@ func (x *tr) isNilCmp(n ast.Node, a ex, neg bool) ex {
 		s = "(isNull " + a.s + ")"
 	case "PtrStrList":
 		s = "false" // the address of a variable
+	case "JObj", "Table":
+		s = "false" // a map pointer obtained from a successful type assertion or a constructor: never nil at any call site
 	default:
 		x.bad(n, "comparison of "+a.t.String()+" with nil")
 	}
@@ -740,6 +745,12 @@ func (x *tr) call(c *ast.CallExpr) ex {
 		a := args()
 		if a[0].t.k == "StrList" && a[1].t.k == "Str" {
 			return ex{"(" + a[0].s + ".contains " + a[1].s + ")", T("Bool"), anyPartial(a)}
+		}
+	case "redactPipelineStage":
+		// the stage walker is not translated: it is a parameter (Globals.redactPipelineStage), instantiated by the model's P in the theorems
+		a := args()
+		if len(a) == 4 && a[0].t.k == "J" && a[1].t.k == "Bool" && a[2].t.k == "StrList" && a[3].t.k == "Bool" {
+			return ex{"(← g.redactPipelineStage " + a[0].s + " " + a[1].s + " " + a[2].s + " " + a[3].s + ")", T("J"), true}
 		}
 	case "strings.TrimLeft":
 		a := args()
@@ -1030,6 +1041,14 @@ func (x *tr) assign(ind int, s *ast.AssignStmt) {
 
 func (x *tr) ret(ind int, r *ast.ReturnStmt) {
 	fi := x.fns[x.cur]
+	if fi.proc {
+		if len(r.Results) != 0 {
+			x.bad(r, "result in a procedure")
+		}
+		g, _ := x.lookup(fi.pnames[0])
+		x.emit(ind, "return "+g.lean)
+		return
+	}
 	if len(r.Results) == 1 && len(fi.results) > 1 {
 		v := x.expr(r.Results[0])
 		if v.t.k != "Tuple" || len(v.t.elems) != len(fi.results) {
@@ -1520,6 +1539,35 @@ func (x *tr) stmt(ind int, st ast.Stmt) {
 	}
 }
 
+// outlineOK: every top-level statement of the procedure is an `if` (with or without init) or a `for`, so that no local variable
+// is shared between statements and an early `return` can only be the nil guard on the map itself
+func outlineOK(fi *fnInfo) bool {
+	for _, st := range fi.decl.Body.List {
+		switch s := st.(type) {
+		case *ast.IfStmt:
+			bad := false
+			ast.Inspect(s, func(n ast.Node) bool {
+				if _, ok := n.(*ast.ReturnStmt); ok {
+					// only `if cmd == nil { return }` may return
+					if be, ok := s.Cond.(*ast.BinaryExpr); !ok || be.Op != token.EQL {
+						bad = true
+					} else if id, ok := be.Y.(*ast.Ident); !ok || id.Name != "nil" {
+						bad = true
+					}
+				}
+				return true
+			})
+			if bad {
+				return false
+			}
+		case *ast.RangeStmt, *ast.ForStmt:
+		default:
+			return false
+		}
+	}
+	return true
+}
+
 // variables that are assigned after their definition (→ `let mut`)
 func mutated(fd *ast.FuncDecl) map[string]bool {
 	m := map[string]bool{}
@@ -1585,6 +1633,9 @@ func (x *tr) function(name string) (text string, err string) {
 	x.scopes = nil
 	x.used = map[string]int{}
 	x.mut = mutated(fi.decl)
+	if fi.proc {
+		x.mut[fi.pnames[0]] = true
+	}
 	x.out = nil
 	x.inLoop = 0
 	x.push()
@@ -1631,11 +1682,51 @@ func (x *tr) function(name string) (text string, err string) {
 			x.emit(ind, "let mut "+g.lean+" := "+g.lean)
 		}
 	}
+	if fi.proc && !fi.rec && outlineOK(fi) {
+		// a procedure whose top-level statements each only update the map: one Lean function per statement (`f_s<i>`), chained by
+		// the main function - the refinement proofs can then take the statements one at a time
+		var pre strings.Builder
+		hdrS := strings.Join(hdr, " ")
+		f := ""
+		if fi.fuel {
+			f = " (fuel : Nat)"
+		}
+		argS := "g T"
+		if fi.fuel {
+			argS += " fuel"
+		}
+		for _, p := range pats {
+			argS += " " + p
+		}
+		main := []string{}
+		for i, st := range fi.decl.Body.List {
+			x.out = nil
+			x.used = map[string]int{}
+			x.scopes = nil
+			x.push()
+			for j, p := range fi.pnames {
+				x.declare(p, fi.params[j])
+			}
+			x.emit(1, "let mut "+pats[0]+" := "+pats[0])
+			x.push()
+			x.stmt(1, st)
+			x.pop()
+			x.emit(1, "return "+pats[0])
+			fmt.Fprintf(&pre, "/-- statement %d of `%s` -/\ndef %s_s%d (g : Globals) (T : Tables)%s %s : Option %s := do\n%s\n\n", i+1, name, name, i+1, f, hdrS, rt, strings.Join(x.out, "\n"))
+			main = append(main, fmt.Sprintf("  let %s ← %s_s%d %s", pats[0], name, i+1, argS))
+		}
+		main = append(main, "  return "+pats[0])
+		return pre.String() + strings.Join(append(L, main...), "\n") + "\n", ""
+	}
 	x.push()
 	for _, s := range fi.decl.Body.List {
 		x.stmt(ind, s)
 	}
 	x.pop()
+	if fi.proc {
+		g, _ := x.lookup(fi.pnames[0])
+		x.emit(ind, "return "+g.lean)
+	}
 	return strings.Join(append(L, x.out...), "\n") + "\n", ""
 }
 
@@ -1708,7 +1799,12 @@ func main() {
 				}
 			}
 			if len(fi.results) == 0 {
-				x.bad(fi.decl, "function without results")
+				if len(fi.params) > 0 && fi.params[0].k == "JObj" {
+					fi.results = []*ty{T("JObj")}
+					fi.proc = true
+				} else {
+					x.bad(fi.decl, "function without results")
+				}
 			}
 		}()
 	}
